@@ -254,10 +254,18 @@ def slice_lane(x, i):
     return jax.tree_util.tree_map(lambda y: y[i], x)
 
 
+class NonScalarScore(Exception):
+    pass
+
+
 def obs_trace(g, tr):
+    sc = tr.get_score()
+    if np.shape(sc) != ():
+        # the score of a trace is a scalar (C01): reported as a failed operation of the implementation
+        raise NonScalarScore(f"trace score has shape {np.shape(sc)}")
     return {
         "choices": canon_cm(g, tr.get_choices()),
-        "score": canon_val(tr.get_score()),
+        "score": canon_val(sc),
         "ret": canon_val(tr.get_retval()),
     }
 
@@ -419,6 +427,15 @@ class ProgGen:
             chk = ["gt", self.sexpr(env, 1), self.sexpr(env, 1)]
             return g, [chk] + [self.sexpr(env, 2) for _ in range(m)], "S"
         if k == "vmap":
+            if rng.random() < 0.3:
+                g, n, axes, kinds_ = self.vmap_nested(depth)
+                args = []
+                for b, ty in zip(axes, kinds_):
+                    if ty == "S":
+                        args.append(self.aexpr(env, n) if b else self.sexpr(env, 1))
+                    else:
+                        args.append(self.aexpr(env, ty[1]))
+                return g, args, ("X",)          # a nested array result: not used by later expressions
             g, n, axes = self.vmap(depth)
             args = [self.aexpr(env, n) if b else self.sexpr(env, 1) for b in axes]
             return g, args, ("A", n)
@@ -492,6 +509,21 @@ class ProgGen:
         for a, sub, args in reversed(calls):
             p = ["call", a, sub, args, p]
         return ["fn", p]
+
+    def vmap_nested(self, depth):
+        """a Vmap whose callee is itself a combinator (the per-lane traces then carry stacked scores):
+        repeat of a distribution, or a Scan.  Returns (gast, n, axes, argument kinds)."""
+        rng = self.rng
+        n, n2 = rng.choice([2, 3]), rng.choice([2, 3])
+        if rng.random() < 0.5:
+            inner = ["vmap", n2, [False, False], ["dist", rng.choice(self.dkinds)], True]      # dist.repeat(n2)
+            axes = [rng.random() < 0.6, rng.random() < 0.6]
+            given = rng.random() < 0.5 or not any(axes)
+            return ["vmap", n, axes, inner, given], n, axes, ["S", "S"]
+        inner = ["scan", n2, self.fn(["S", "S"], max(depth - 1, 0), ret="CO")]
+        axes = [rng.random() < 0.7, False]          # initial carry per lane or shared; the scanned inputs are shared
+        given = rng.random() < 0.5 or not any(axes)
+        return ["vmap", n, axes, inner, given], n, axes, ["S", ("A", n2)]
 
     def vmap(self, depth):
         rng = self.rng
